@@ -425,3 +425,121 @@ theorem C14_ver_line_composed (v1 y1 v2 y2 l : Bytes) (hv1 : VersionOk v1)
 example : stepLine b!"4.8.0" b!"2031" b!"    ver:'OWASP_CRS/4.0.0',\\" = b!"    ver:'OWASP_CRS/4.8.0',\\" := by decide +kernel
 
 end Crs.Props
+
+namespace Crs.Props
+open Crs Crs.Copyright
+
+/-! ### a line on which only the `setvar:tx.crs_setup_version=` pattern can act -/
+
+theorem ite_cases' {α : Type} (c : Prop) [Decidable c] (a b : α) : (if c then a else b) = b ∨ (if c then a else b) = a := by
+  by_cases h : c
+  · exact .inr (by simp [h])
+  · exact .inl (by simp [h])
+
+theorem sub2Fields_mem (n : Bytes) (p2 p : Option Bytes) (fs : List Bytes) :
+    ∀ g ∈ sub2Fields n p2 p fs, ∃ f ∈ fs, g = f ∨ g = n ++ f.dropWhile isDigit := by
+  induction fs generalizing p2 p with
+  | nil => simp [sub2Fields]
+  | cons f rest ih =>
+    intro g hg
+    unfold sub2Fields at hg
+    simp only [List.mem_cons] at hg
+    rcases hg with rfl | hg
+    · refine ⟨f, by simp, ?_⟩
+      exact ite_cases' _ _ _
+    · obtain ⟨f', hf', h⟩ := ih _ _ g hg
+      exact ⟨f', List.mem_cons_of_mem _ hf', h⟩
+
+/-- a character that is neither on the line, nor a digit, nor `=`, is not on the line after the pattern has acted -/
+theorem sub2_noChar (n l : Bytes) (c : Char) (hl : c ∉ l) (hn : c ∉ n) (hq : c ≠ '=') : c ∉ sub2 n l := by
+  unfold sub2
+  intro hm
+  rcases mem_joinCh '=' c _ hm with h | ⟨g, hg, hcg⟩
+  · exact hq h
+  · obtain ⟨f, hf, h⟩ := sub2Fields_mem n none none _ g hg
+    have hcf : ∀ x, x ∈ f → x ∈ l := fun x hx => mem_of_mem_splitCh '=' x l f hf hx
+    rcases h with rfl | rfl
+    · exact hl (hcf c hcg)
+    · rcases List.mem_append.mp hcg with h' | h'
+      · exact hn h'
+      · exact hl (hcf c ((List.dropWhile_sublist _).subset h'))
+
+/-- the pattern does not change how the line begins (the first field has nothing before it, so it is never rewritten) -/
+theorem sub2_head (n l : Bytes) : (sub2 n l).head? = l.head? ∨ (sub2 n l).head? = some '=' ∨ (sub2 n l).head? = none := by
+  unfold sub2
+  cases hs : splitCh '=' l with
+  | nil => exact absurd hs (splitCh_ne_nil _ _)
+  | cons f fs =>
+    have hfirst : sub2Fields n none none (f :: fs) = f :: sub2Fields n none (some f) fs := by
+      simp [sub2Fields]
+    rw [hfirst]
+    have hl : l = joinCh '=' (f :: fs) := by rw [← hs, joinCh_splitCh]
+    cases f with
+    | nil =>
+      cases hr : sub2Fields n none (some []) fs with
+      | nil => exact .inr (.inr (by simp [joinCh]))
+      | cons g gs => exact .inr (.inl (by simp [joinCh]))
+    | cons a as =>
+      left
+      have h1 : (joinCh '=' ((a :: as) :: sub2Fields n none (some (a :: as)) fs)).head? = some a := by
+        cases sub2Fields n none (some (a :: as)) fs <;> simp [joinCh]
+      have h2 : l.head? = some a := by
+        rw [hl]; cases fs <;> simp [joinCh]
+      rw [h1, h2]
+
+/-- on a line that begins neither with `#` nor with `S` and carries no `'`, only the setup-version pattern acts -/
+theorem stepLine_setup_only (v y l : Bytes) (h0 : l.head? ≠ some '#') (h1 : l.head? ≠ some 'S') (hs : '\'' ∉ l) :
+    stepLine v y l = sub2 (digitsOf v) l := by
+  have hnone : ∀ (P : Bytes) (c0 : Char) (cs : Bytes) (m : Bytes), P = c0 :: cs → m.head? ≠ some c0 → stripPrefix? P m = none := by
+    intro P c0 cs m hP hm
+    subst hP
+    cases m with
+    | nil => simp [stripPrefix?]
+    | cons c ms =>
+      have : c ≠ c0 := by simpa using hm
+      simp [stripPrefix?, Ne.symm this]
+  have hhead : ∀ c0 : Char, c0 ≠ '=' → l.head? ≠ some c0 → (sub2 (digitsOf v) l).head? ≠ some c0 := by
+    intro c0 hc0 hl
+    rcases sub2_head (digitsOf v) l with h | h | h
+    · rw [h]; exact hl
+    · rw [h]; simpa using fun e => hc0 e.symm
+    · rw [h]; simp
+  have hdig : '\'' ∉ digitsOf v := by
+    intro hm; have := (List.mem_filter.mp hm).2; simp [isDigit] at this
+  have hnq : '\'' ∉ sub2 (digitsOf v) l := sub2_noChar _ l '\'' hs hdig (by decide)
+  have s1 : sub1 v l = l := by
+    unfold sub1
+    rw [hnone p1a '#' _ l rfl h0, hnone p1b '#' _ l rfl h0]
+  have s3 : sub3 y (sub2 (digitsOf v) l) = sub2 (digitsOf v) l := by
+    unfold sub3
+    rw [hnone p3 '#' _ _ rfl (hhead '#' (by decide) h0)]
+  have s4 : sub4 v (sub2 (digitsOf v) l) = sub2 (digitsOf v) l := by
+    unfold sub4
+    rw [splitCh_noSep '\'' _ hnq]
+    simp [sub4Fields, joinCh]
+  have s5 : sub5 v (sub2 (digitsOf v) l) = sub2 (digitsOf v) l := by
+    unfold sub5
+    rw [hnone p5 'S' _ _ rfl (hhead 'S' (by decide) h1)]
+  unfold stepLine
+  rw [s1, s3, s4, s5]
+
+/-- **C14 (action line with `setvar:tx.crs_setup_version=NNN`: the last invocation wins, for the composed step).** -/
+theorem C14_setup_line_composed (v1 y1 v2 y2 l : Bytes) (hd : ∃ c ∈ v1, isDigit c = true)
+    (h0 : l.head? ≠ some '#') (h1 : l.head? ≠ some 'S') (hs : '\'' ∉ l) :
+    stepLine v2 y2 (stepLine v1 y1 l) = stepLine v2 y2 l := by
+  have hdig : '\'' ∉ digitsOf v1 := by
+    intro hm; have := (List.mem_filter.mp hm).2; simp [isDigit] at this
+  have hhead : ∀ c0 : Char, c0 ≠ '=' → l.head? ≠ some c0 → (sub2 (digitsOf v1) l).head? ≠ some c0 := by
+    intro c0 hc0 hl
+    rcases sub2_head (digitsOf v1) l with h | h | h
+    · rw [h]; exact hl
+    · rw [h]; simpa using fun e => hc0 e.symm
+    · rw [h]; simp
+  rw [stepLine_setup_only v1 y1 l h0 h1 hs, stepLine_setup_only v2 y2 l h0 h1 hs]
+  rw [stepLine_setup_only v2 y2 _ (hhead '#' (by decide) h0) (hhead 'S' (by decide) h1)
+    (sub2_noChar _ l '\'' hs hdig (by decide))]
+  exact C14_setup_version_last_wins v1 v2 l hd
+
+example : stepLine b!"4.8.0" b!"2031" b!"    setvar:tx.crs_setup_version=400\"" = b!"    setvar:tx.crs_setup_version=480\"" := by decide +kernel
+
+end Crs.Props
